@@ -24,15 +24,19 @@ Proof. destruct a; reflexivity. Qed.
 Inductive tkind :=
 | TTcp (has_tls_config : bool)
 | TWs (tls : bool)
-| TInproc.
+| TInproc
+| TMulti.     (* a transport that can switch to any of two compressions and two encryptions (none of the library's own can
+                 change its compression; exists in the verification build only, to exercise the order "compression, then
+                 encryption" of applying a confirmed pair) *)
 
 Definition supported_enc (k : tkind) : list string :=
   match k with
   | TTcp _ => ["none"; "tls"]
   | TWs tls => [if tls then "tls" else "none"]
   | TInproc => ["none"]
+  | TMulti => ["none"; "tls"]
   end.
-Definition supported_comp (k : tkind) : list string := ["none"].
+Definition supported_comp (k : tkind) : list string := match k with TMulti => ["none"; "gzip"] | _ => ["none"] end.
 Definition initial_enc (k : tkind) : string :=
   match k with TWs true => "tls" | _ => "none" end.
 
@@ -52,6 +56,7 @@ Definition set_enc (k : tkind) (tls_ok : bool) (cur e : string) : bool * string 
       else if tls_ok then (true, "tls") else (false, cur)    (* in-place TLS handshake *)
   | TWs _ => (String.eqb e cur, cur)
   | TInproc => (false, cur)
+  | TMulti => if String.eqb e "none" || String.eqb e "tls" then (true, e) else (false, cur)
   end.
 (* the tree as found: a request for anything but "none" and the current value ran the TLS handshake *)
 Definition set_enc_as_found (k : tkind) (tls_ok : bool) (cur e : string) : bool * string :=
@@ -66,13 +71,14 @@ Definition set_enc_as_found (k : tkind) (tls_ok : bool) (cur e : string) : bool 
 (* a successful switch leaves exactly the requested option in force *)
 Lemma set_enc_ok_is_requested k t cur e enc' : set_enc k t cur e = (true, enc') -> enc' = e.
 Proof.
-  destruct k as [cfg|tls|]; unfold set_enc; intros H.
+  destruct k as [cfg|tls| |]; unfold set_enc; intros H.
   - destruct (String.eqb_spec e cur) as [->|N]; [inversion H; reflexivity|].
     destruct (String.eqb e "none"); [discriminate|].
     destruct (String.eqb_spec e "tls") as [->|N2]; cbn in H; [|discriminate].
     destruct cfg; cbn in H; [|discriminate]. destruct t; inversion H; reflexivity.
   - destruct (String.eqb_spec e cur) as [->|N]; inversion H; reflexivity.
   - discriminate.
+  - destruct (String.eqb e "none" || String.eqb e "tls"); inversion H; reflexivity.
 Qed.
 Lemma set_enc_as_found_takes_unknown_for_tls :
   set_enc_as_found (TTcp true) true "none" "rot13" = (true, "tls").
@@ -81,5 +87,6 @@ Proof. reflexivity. Qed.
 Definition set_comp (k : tkind) (cur c : string) : bool :=
   match k with
   | TWs _ => String.eqb c cur
+  | TMulti => String.eqb c "none" || String.eqb c "gzip"
   | _ => false
   end.
